@@ -156,8 +156,8 @@ def shard(arg):
         def pairs(draw):
             n = draw(st.sampled_from([4, 5, 6]))
             ga, _, _ = draw(hyp.member_gens(n))
-            rel = draw(st.sampled_from(["same", "same", "one-generator", "independent", "independent"]))
-            if rel == "same":
+            rel = draw(st.sampled_from(["same", "same", "one-generator", "independent", "independent", "same-basis-local-change", "same-basis-local-change"]))
+            if rel in ("same", "same-basis-local-change"):
                 gb = list(ga)
             elif rel == "one-generator":
                 # replace one generator by another Pauli commuting with the rest: conjugate the group by a gate on one/two qubits
@@ -165,8 +165,15 @@ def shard(arg):
                 gb = [pauli.propagate(g, [(o[0], tuple(o[1])) for o in ops]) for g in ga]
             else:
                 gb, _, _ = draw(hyp.member_gens(n))
+            if rel == "same-basis-local-change":
+                # the SAME generator list, changed by one or two gates only (typically one Pauli letter on one qubit),
+                # then merely reordered and re-signed -- a near miss for shortcuts that compare generator lists
+                ops = draw(hyp.clifford_ops(n, max_len=2, allow_macros=False))
+                gb = [pauli.propagate(g, [(o[0], tuple(o[1])) for o in ops]) for g in ga]
+                gb = list(draw(st.permutations(gb)))
             gb = list(gb)
-            for (i, j) in draw(st.lists(st.tuples(st.integers(0, n - 1), st.integers(0, n - 1)), max_size=3 * n)):
+            mix = [] if rel == "same-basis-local-change" else draw(st.lists(st.tuples(st.integers(0, n - 1), st.integers(0, n - 1)), max_size=3 * n))
+            for (i, j) in mix:
                 if i != j:
                     gb[i] = pauli.mul(gb[i], gb[j])
             sv = draw(st.integers(0, (1 << n) - 1))
